@@ -21,8 +21,12 @@ from fractions import Fraction
 from pathlib import Path
 
 VERIF = Path(__file__).resolve().parent.parent
-COQ = VERIF / "coq"
 REPO = Path(os.environ.get("FDAPY_REPO", "/repo"))
+COQ_SRC = VERIF / "coq"
+# The development is built in place for /repo.  A run against another tree (FDAPY_REPO: seeded-change tests in scratch
+# worktrees) builds a private copy under build/, so that the files generated from THAT tree's source (coq/Gen) never mix
+# with the ones generated from /repo while other checks run.
+COQ = COQ_SRC if str(REPO) == "/repo" else VERIF / "build" / ("coq_" + hashlib.sha1(str(REPO).encode()).hexdigest()[:10])
 # evidence describes runs against /repo's working tree only: a run against another tree (FDAPY_REPO, used by
 # tools/try_seed_wt.sh to test seeded changes in a scratch worktree) writes its record under build/ instead
 EVID = (VERIF / "evidence") if str(REPO) == "/repo" else (VERIF / "build" / "evidence_other_tree")
@@ -93,9 +97,20 @@ def coq_files() -> list[str]:
 def build(verbose=False) -> tuple[bool, str]:
     """(Re)build the whole Coq development under a lock.  No-op when up to date."""
     (VERIF / "build").mkdir(exist_ok=True)
-    lock = open(VERIF / "build" / ".lock", "w")
+    lock = open(VERIF / "build" / (".lock" if COQ == COQ_SRC else f".lock_{COQ.name}"), "w")
     fcntl.flock(lock, fcntl.LOCK_EX)
     try:
+        if COQ != COQ_SRC:
+            # sources (not the generated ones) from the development; compiled files of earlier runs are kept
+            COQ.mkdir(parents=True, exist_ok=True)
+            src_lock = open(VERIF / "build" / ".lock", "w")
+            fcntl.flock(src_lock, fcntl.LOCK_SH)
+            try:
+                _run(["rsync", "-a", "--delete", "--exclude", "Gen/", "--include", "*/", "--include", "*.v", "--exclude", "*",
+                      str(COQ_SRC) + "/", str(COQ) + "/"], cwd=VERIF)
+            finally:
+                fcntl.flock(src_lock, fcntl.LOCK_UN)
+                src_lock.close()
         from harness import reflect
         reflect.write_consts()
         reflect.write_kernels()
